@@ -67,6 +67,15 @@ TIGHT = {
 }
 
 
+def is_buffer_printer(f):
+    """a printer that writes into a buffer it is handed instead of returning its text (not modelled by lib/symstr)"""
+    return any("&mut alloc::string::String" in t or "&mut dyn core::fmt::Write" in t or "core::fmt::Formatter" in t for t in f.get("inputs", [])) and \
+        f.get("output", "") in ("()", "core::result::Result<(), core::fmt::Error>")
+
+
+UNK_BUFFER = [(("unk", "the printer writes into a buffer parameter (not modelled)"),)]
+
+
 def interp(core):
     pf = P.printer_fns(core)
     return Y.Interp(core, set(pf.keys()), lambda n: H.macro_templates(core, n)), pf
@@ -189,6 +198,14 @@ def arms_of(core, I_, pf):
     dm = dispatch_map(core, pf)
     for name, f in sorted(pf.items()):
         ms = [m for m in H.matches_on(f["body"], "ast::Expr") if len(m["arms"]) >= 5]
+        if any("&mut alloc::string::String" in t or "&mut dyn core::fmt::Write" in t or "core::fmt::Formatter" in t for t in f.get("inputs", [])) and f.get("output", "") in ("()", "core::result::Result<(), core::fmt::Error>"):
+            # a printer that writes into a buffer it is handed: the symbolic interpreter models printers that RETURN their text
+            for m in ms:
+                for a in m["arms"]:
+                    vs = [H.last(v) for v in H.pat_variants(a["pat"])]
+                    if len(vs) == 1 and vs[0] in SKEL:
+                        yield name, vs[0], [(("unk", "the printer writes into a buffer parameter (not modelled)"),)], {}, H.loc(a["body"])
+            continue
         env = {}
         for p in f["params"]:
             for bn in H.pat_binds(p):
@@ -206,7 +223,7 @@ def arms_of(core, I_, pf):
         if name in dm:
             v, ren = dm[name]
             if v in SKEL:
-                alts = I_.function(f)
+                alts = UNK_BUFFER if is_buffer_printer(f) else I_.function(f)
                 yield name, v, alts, ren, H.loc(f["body"])
 
 
@@ -274,7 +291,8 @@ def shape_rules(ctx, rid, core, G, scope_fns):
         if bad:
             ctx.inst(rid, "%s[%s]#shape" % (short, variant), False, "%d of %d output paths do not follow the grammar's shape for %s: %s" % (len(bad), len(alts), variant, sorted(set(bad))[:3]), loc)
         else:
-            ctx.inst(rid, "%s[%s]#shape" % (short, variant), None if (unk and not alts) else True, "%d output path(s) follow %s%s" % (len(alts), SKEL[variant], " (some paths contain opaque pieces)" if unk else ""), loc)
+            all_unk = bool(alts) and all(any(x[0] == "unk" for x in Y.flatten(alt)) for alt in alts)
+            ctx.inst(rid, "%s[%s]#shape" % (short, variant), None if ((unk and not alts) or all_unk) else True, "%d output path(s) follow %s%s" % (len(alts), SKEL[variant], " (some paths contain opaque pieces)" if unk else ""), loc)
         # line-break gaps
         viol = set()
         for alt in alts:
@@ -310,7 +328,7 @@ def shape_rules(ctx, rid, core, G, scope_fns):
                 vs = [H.last(v) for v in H.pat_variants(a["pat"])]
                 if len(vs) != 1 or vs[0] not in SKEL_KEY:
                     continue
-                alts = I_.arm(a, m["scrut"], env)
+                alts = UNK_BUFFER if is_buffer_printer(f) else I_.arm(a, m["scrut"], env)
                 bad = []
                 for alt in alts:
                     flat = Y.flatten(alt)
@@ -323,7 +341,8 @@ def shape_rules(ctx, rid, core, G, scope_fns):
                         ok, why = match_skeleton(flat, [I("name"), ":", C("<value>")], {})
                     if not ok:
                         bad.append(why)
-                ctx.inst(rid, "%s[RecordKey::%s]#shape" % (name.replace(CORE, ""), vs[0]), not bad, "record entry printed as %s: %s" % (SKEL_KEY[vs[0]], sorted(set(bad))[:2] if bad else "ok"), H.loc(a["body"]))
+                all_unk = bool(alts) and all(any(x[0] == "unk" for x in Y.flatten(alt)) for alt in alts)
+                ctx.inst(rid, "%s[RecordKey::%s]#shape" % (name.replace(CORE, ""), vs[0]), None if all_unk else (not bad), "record entry printed as %s: %s" % (SKEL_KEY[vs[0]], "not modelled" if all_unk else (sorted(set(bad))[:2] if bad else "ok")), H.loc(a["body"]))
     ctx.units["printer_arms_interpreted"] = n
 
 
@@ -366,7 +385,7 @@ def comment_order(ctx, rid, core, G):
     for name, f in sorted(pf.items()):
         if not name.startswith(CORE + "formatter::"):
             continue
-        alts = I_.function(f)
+        alts = UNK_BUFFER if is_buffer_printer(f) else I_.function(f)
         k = 0
         for alt in alts:
             for it in alt:
